@@ -81,6 +81,16 @@ class Ref:
         return "&mut %r" % (self.get(),)
 
 
+class PyFn:
+    """A function item used as a value (`.map(Some)`, `.map_or(x, f)`)."""
+
+    def __init__(self, path):
+        self.path = path
+
+    def __repr__(self):
+        return "<fn %s>" % self.path
+
+
 class PyClosure:
     """A closure value: its body path and the environment it was created in (upvars share HIR ids)."""
 
@@ -217,7 +227,7 @@ class Interp:
         if k == "Match":
             v = self.ev(e["scrut"], env, depth)
             for arm in e["arms"]:
-                env2 = dict(env)
+                env2 = env          # HIR ids are unique: pattern bindings cannot clash, and assignments made in an arm must be seen outside it
                 if self.match_pat(arm["pat"], v, env2):
                     if "guard" in arm and not self.truth(self.ev(arm["guard"], env2, depth)):
                         continue
@@ -304,6 +314,13 @@ class Interp:
             i = self.ev(e["i"], env, depth)
             if isinstance(base, (list, tuple)) and isinstance(i, int) and 0 <= i < len(base):
                 return base[i]
+            if isinstance(base, (list, tuple)) and isinstance(i, Enum) and i.adt.startswith("Range"):
+                lo = i.fields.get("start", 0)
+                hi = i.fields.get("end", len(base))
+                if i.adt in ("RangeInclusive", "RangeToInclusive") and isinstance(hi, int):
+                    hi += 1
+                if isinstance(lo, int) and isinstance(hi, int) and 0 <= lo <= hi <= len(base):
+                    return list(base[lo:hi])
             raise Unknown("index %r[%r]" % (base, i))
         if k == "Const" or k == "Static":
             b = self.facts.bodies.get(e["path"])
@@ -315,7 +332,7 @@ class Interp:
         if k == "Closure":
             return PyClosure(e.get("path"), env)
         if k == "FnRef":
-            return Opaque("fn " + (e.get("fn") or ""))
+            return PyFn(e.get("fn") or "")
         if k == "Zst":
             return Opaque("zst")
         raise Unknown("expression kind " + str(k))
@@ -329,6 +346,11 @@ class Interp:
             env[l["id"]] = val
             return
         if l.get("k") == "Deref":
+            inner0 = l["e"]
+            while inner0.get("k") in ("Borrow", "Coerce"):
+                inner0 = inner0["e"]
+            if inner0.get("k") == "Call" and short(inner0.get("fn") or "") == "index_mut":
+                return self.assign(inner0, val, env, depth)
             target = self.ev(l["e"], env, depth)
             if isinstance(target, Ref):
                 target.set(val)
@@ -340,6 +362,16 @@ class Interp:
                 env[inner["id"]] = val
                 return
             raise Unknown("assignment through %r" % (target,))
+        if l.get("k") == "Index" or (l.get("k") == "Call" and short(l.get("fn") or "") in ("index_mut", "index")):
+            be, ie = (l["e"], l["i"]) if l.get("k") == "Index" else (l["args"][0], l["args"][1])
+            base = self.ev(be, env, depth)
+            if isinstance(base, Ref):
+                base = base.get()
+            i = self.ev(ie, env, depth)
+            if isinstance(base, list) and isinstance(i, int) and 0 <= i < len(base):
+                base[i] = val
+                return
+            raise Unknown("indexed assignment %r[%r]" % (base, i))
         if l.get("k") == "Field":
             base = self.ev(l["e"], env, depth)
             if isinstance(base, Ref):
@@ -452,10 +484,9 @@ class Interp:
             v = list(v)
             if m in ("any", "all", "filter", "map", "position", "find", "take_while", "skip_while"):
                 c = self.ev(args[1], env, depth)
-                if not isinstance(c, PyClosure):
+                if not isinstance(c, (PyClosure, PyFn)):
                     raise Unknown("iterator method %s without a closure" % m)
-                by_ref = m in ("filter", "find", "take_while", "skip_while")
-                rs = [self.call_closure(c, [x], depth) for x in v]
+                rs = [self.call_callable(c, [x], depth) for x in v]
                 if m == "any":
                     return any(self.truth(r) for r in rs)
                 if m == "all":
@@ -475,6 +506,13 @@ class Interp:
                             return Enum("Option", "Some", {"0": x})
                     return Enum("Option", "None")
                 raise Unknown("iterator method " + m)
+            if m == "zip":
+                o = self.ev(args[1], env, depth)
+                if isinstance(o, Ref):
+                    o = o.get()
+                if not isinstance(o, (list, tuple)):
+                    raise Unknown("zip with %r" % (o,))
+                return [(a_, b_) for a_, b_ in zip(v, o)]
             if m == "count":
                 return len(v)
             if m == "rev":
@@ -488,10 +526,16 @@ class Interp:
                 return v[k2:] if m == "skip" else v[:k2]
             raise Unknown("iterator method " + m)
         if gen in ("alloc::vec::Vec::<T, A>::pop", "alloc::vec::Vec::<T, A>::push", "core::slice::<impl [T]>::last_mut", "core::slice::<impl [T]>::first_mut",
-                   "alloc::vec::Vec::<T, A>::clear", "alloc::vec::Vec::<T, A>::new", "alloc::vec::Vec::<T>::new"):
+                   "alloc::vec::Vec::<T, A>::clear", "alloc::vec::Vec::<T, A>::new", "alloc::vec::Vec::<T>::new", "alloc::vec::Vec::<T>::with_capacity",
+                   "alloc::vec::Vec::<T, A>::with_capacity", "alloc::vec::from_elem"):
             m = short(gen)
-            if m == "new":
+            if m in ("new", "with_capacity"):
                 return []
+            if m == "from_elem":
+                x0, n0 = self.ev(args[0], env, depth), self.ev(args[1], env, depth)
+                if isinstance(n0, int) and n0 <= 64:
+                    return [x0 for _ in range(n0)]
+                raise Unknown("vec![x; n] with n = %r" % (n0,))
             v = self.ev(args[0], env, depth)
             if isinstance(v, Ref):
                 v = v.get()
@@ -508,6 +552,15 @@ class Interp:
             if not v:
                 return Enum("Option", "None")
             return Enum("Option", "Some", {"0": Ref(v, len(v) - 1 if m == "last_mut" else 0)})
+        if (gen.startswith("core::option::Option::<T>::") or gen.startswith("core::result::Result::<T, E>::")) and \
+                short(gen) not in ("is_some", "is_none", "is_ok", "is_err"):
+            return self.option_method(short(gen), self.ev(args[0], env, depth), args[1:], env, depth)
+        if gen in ("core::bool::<impl bool>::then_some", "core::bool::<impl bool>::then"):
+            c0 = self.truth(self.ev(args[0], env, depth))
+            if not c0:
+                return Enum("Option", "None")
+            v1 = self.ev(args[1], env, depth)
+            return Enum("Option", "Some", {"0": v1 if short(gen) == "then_some" else self.call_callable(v1, [], depth)})
         if gen in ("core::option::Option::<T>::is_some", "core::option::Option::<T>::is_none", "core::result::Result::<T, E>::is_ok", "core::result::Result::<T, E>::is_err"):
             v = self.ev(args[0], env, depth)
             if isinstance(v, Enum) and v.variant in ("Some", "None", "Ok", "Err"):
@@ -541,7 +594,21 @@ class Interp:
             i = self.ev(args[1], env, depth)
             if isinstance(base, (list, tuple)) and isinstance(i, int) and 0 <= i < len(base):
                 return base[i]
+            if isinstance(base, (list, tuple)) and isinstance(i, Enum) and i.adt in ("Range", "RangeFrom", "RangeTo", "RangeInclusive", "RangeToInclusive", "RangeFull"):
+                lo = i.fields.get("start", 0)
+                hi = i.fields.get("end", len(base))
+                if i.adt in ("RangeInclusive", "RangeToInclusive") and isinstance(hi, int):
+                    hi += 1
+                if isinstance(lo, int) and isinstance(hi, int) and 0 <= lo <= hi <= len(base):
+                    return list(base[lo:hi])
+                raise Unknown("slice bounds (a run-time abort for these values)")
             raise Unknown("index")
+        if gen == "core::slice::<impl [T]>::contains":
+            base = self.ev(args[0], env, depth)
+            x = self.ev(args[1], env, depth)
+            if isinstance(base, (list, tuple)) and not isinstance(x, Opaque):
+                return any(x == y for y in base)
+            raise Unknown("contains")
         if gen in ("core::cmp::Ord::cmp", "core::cmp::PartialOrd::partial_cmp"):
             a, b = self.ev(args[0], env, depth), self.ev(args[1], env, depth)
             if isinstance(a, int) and isinstance(b, int):
@@ -571,6 +638,64 @@ class Interp:
             raise Unknown("call to " + cal)
         vals = [self.ev(a, env, depth) for a in args]
         return self.apply(callee, vals, depth + 1)
+
+    def call_callable(self, c, vals, depth):
+        if isinstance(c, PyClosure):
+            return self.call_closure(c, vals, depth)
+        if isinstance(c, PyFn):
+            body = self.facts.bodies.get(c.path)
+            if body is not None and depth < self.max_depth:
+                return self.apply(body, vals, depth + 1)
+            nm = short(c.path)
+            if nm in ("Some", "Ok", "Err") and len(vals) == 1:
+                return Enum("Option" if nm == "Some" else "Result", nm, {"0": vals[0]})
+            raise Unknown("call of function value " + c.path)
+        raise Unknown("call of %r" % (c,))
+
+    def option_method(self, m, v, rest, env, depth):
+        some = isinstance(v, Enum) and v.variant in ("Some", "Ok")
+        none = isinstance(v, Enum) and v.variant in ("None", "Err")
+        if not (some or none):
+            raise Unknown("%s on %r" % (m, v))
+        is_res = v.variant in ("Ok", "Err")
+        x = v.fields.get("0") if some else None
+        ev = lambda i: self.ev(rest[i], env, depth)
+        if m == "map":
+            return Enum(v.adt, v.variant, {"0": self.call_callable(ev(0), [x], depth)}) if some else v
+        if m == "map_or":
+            return self.call_callable(ev(1), [x], depth) if some else ev(0)
+        if m == "map_or_else":
+            return self.call_callable(ev(1), [x], depth) if some else self.call_callable(ev(0), [] if not is_res else [v.fields.get("0")], depth)
+        if m == "unwrap_or":
+            return x if some else ev(0)
+        if m == "unwrap_or_else":
+            return x if some else self.call_callable(ev(0), [] if not is_res else [v.fields.get("0")], depth)
+        if m in ("unwrap", "expect"):
+            if some:
+                return x
+            raise Unknown("core::panicking: %s on %s" % (m, v.variant))
+        if m == "and_then":
+            return self.call_callable(ev(0), [x], depth) if some else v
+        if m == "ok_or":
+            return Enum("Result", "Ok", {"0": x}) if some else Enum("Result", "Err", {"0": ev(0)})
+        if m == "ok":
+            return Enum("Option", "Some", {"0": x}) if some else Enum("Option", "None")
+        if m in ("as_ref", "as_mut", "as_deref", "copied", "cloned", "take"):
+            return v
+        if m == "is_some_and":
+            return bool(some and self.truth(self.call_callable(ev(0), [x], depth)))
+        if m == "filter":
+            return v if some and self.truth(self.call_callable(ev(0), [x], depth)) else Enum("Option", "None")
+        if m == "zip":
+            o = ev(0)
+            if some and isinstance(o, Enum) and o.variant == "Some":
+                return Enum("Option", "Some", {"0": (x, o.fields.get("0"))})
+            if isinstance(o, Enum) and o.variant in ("Some", "None"):
+                return Enum("Option", "None")
+            raise Unknown("zip with %r" % (o,))
+        if m == "or":
+            return v if some else ev(0)
+        raise Unknown("Option/Result method " + m)
 
     def call_closure(self, c, vals, depth):
         body = self.facts.bodies.get(c.path)
